@@ -1,8 +1,8 @@
 (* Properties/C10.v — Tables and expressions are immutable values. *)
 From Coq Require Import List NArith Bool Arith.
-From PDT Require Import Model.Value Model.Expr Model.RefSem Model.Session Model.Heap
-     Proofs.SessionLemmas Proofs.HeapLemmas.
-From PDTGen Require Import CacheUpdate.
+From PDT Require Import Model.Value Model.Expr Model.RefSem Model.Session Model.Heap Model.HeapProg
+     Proofs.SessionLemmas Proofs.HeapLemmas Proofs.HeapProgLemmas.
+From PDTGen Require Import CacheUpdate VerbEffects.
 Import ListNotations.
 
 (* (1) HISTORY INDEPENDENCE in the value model.  A session is ANY interleaving of verb calls (each binds
@@ -55,8 +55,42 @@ Proof.
 Qed.
 Print Assumptions cache_update_and_preprocessing_write_only_fresh_objects.
 
-(* PARTIAL: the verb front ends (pipe/verbs.py), the clones made by export / build_query and the
-   backend compilers are not translated; for them immutability is decided by the session runs. *)
+(* (3) The same for PROGRAMS: sequences, choices, loops with break / continue, return / raise
+   (Model/HeapProg.v).  For ANY program that passes the static check, every execution - whichever
+   branches are taken, however often each loop runs, however it ends - leaves every pre-existing
+   object exactly as it was. *)
+Theorem safe_prog_preserves_old_objects : forall p e h o e' h',
+  safe_prog p = true -> pexec p (e, h) o (e', h') ->
+  List.length h <= List.length h' /\ forall l, l < List.length h -> nth_error h' l = nth_error h l.
+Proof. exact safe_prog_preserves_old_objects_proof. Qed.
+Print Assumptions safe_prog_preserves_old_objects.
+
+(* ... and the bodies of the verb front ends (alias, select, drop, rename, mutate, filter, arrange,
+   group_by, ungroup, summarize, slice_head, join and its four variants, union), of their nested
+   helpers, of preprocess_arg, of check_subquery (the rebuilding of the tree above an alias) and of the
+   modify_ast / verb wrappers (pipe/verbs.py, pipe/pipeable.py), of every map_subtree and of every
+   receiver-writing method map_children / map_col_roots / map_col_nodes (tree/verbs.py,
+   tree/col_expr.py; run on a shallow copy of the receiver, so that the theorem says that nothing but
+   the receiver is written), re-read from /repo's source on every run (generated/VerbEffects.v),
+   pass it *)
+Lemma generated_progs_are_safe : forallb (fun np => safe_prog (snd np)) verb_progs = true.
+Proof. vm_compute. reflexivity. Qed.
+
+Theorem verb_front_ends_write_only_fresh_objects : forall name p e h o e' h',
+  In (name, p) verb_progs -> pexec p (e, h) o (e', h') ->
+  forall l, l < List.length h -> nth_error h' l = nth_error h l.
+Proof.
+  intros name p e h o e' h' Hin X.
+  pose proof (proj1 (forallb_forall _ _) generated_progs_are_safe (name, p) Hin) as S. simpl in S.
+  apply (safe_prog_preserves_old_objects_proof p e h o e' h' S X).
+Qed.
+Print Assumptions verb_front_ends_write_only_fresh_objects.
+
+(* PARTIAL: calls are not followed: a call of a function translated in the same run is taken to write
+   nothing that existed before it (its own theorem), the other callees are a list of trusted names
+   (tree constructors, argument checkers, readers; DESIGN.md I.6).  The clones made by export /
+   build_query and the backend compilers are not translated; for them immutability is decided by the
+   session runs. *)
 
 (* the check is not vacuous: it rejects the two shapes of the defects this property is about *)
 Example in_place_extension_of_a_shared_list_is_rejected :
@@ -64,4 +98,18 @@ Example in_place_extension_of_a_shared_list_is_rejected :
   /\ safe_path [SSet 0 0 RNew] = false                        (* expr.context_kwargs = {...} on the caller's object *)
   /\ safe_path [SCopy 3 0; SSet 3 3 RNew; SMutF 3 3] = true   (* fresh list first: fine *)
   /\ (2 <= List.length cache_update_paths)%nat.
+Proof. vm_compute. repeat split; repeat constructor. Qed.
+
+(* ... nor is the check of programs: a loop that extends a caller's list, a write through a list that is
+   not known to hold fresh copies only, and a mutation after the loop of an object bound inside it are
+   rejected; rebuilding a chain of fresh copies inside a loop is accepted *)
+Example program_check_is_not_vacuous :
+  safe_prog (PLoop (PStmt (SMutV 0))) = false                                 (* for ..: arg.append(..) *)
+  /\ safe_prog (pseq [PStmt (SLet 1 RNew); PLoop (PStmt (SMutV 1))]) = true    (* acc = []; for ..: acc.append(..) *)
+  /\ safe_prog (pseq [PStmt (SLet 1 RNew); PLoop (PStmt (SLet 1 RAny)); PStmt (SMutV 1)]) = false
+  /\ safe_prog (pseq [PStmt (SLet 1 RNew); PStmt (SSetElem 1 2 RAny)]) = false  (* l = list(chain); l[i].child = .. *)
+  /\ safe_prog (PLoop (pseq [PStmt (SLetCopies 1); PStmt (SAppend 1 RNew);
+                             PLoop (PStmt (SSetElem 1 2 RAny)); PStmt (SMutElem 1); PIf PBreak PSkip])) = true
+  /\ safe_prog (pseq [PStmt (SLetCopies 1); PStmt (SAppend 1 RAny)]) = false    (* an existing object joins the list *)
+  /\ (40 <= List.length verb_progs)%nat.
 Proof. vm_compute. repeat split; repeat constructor. Qed.
